@@ -115,7 +115,13 @@ func confText(kind, queueRoot, upAddr string, twoKeys bool) string {
 	case "incompatible":
 		keys = "app, source"
 	}
-	return fmt.Sprintf(confTemplate, keys, extra, queueRoot, upAddr)
+	text := fmt.Sprintf(confTemplate, keys, extra, queueRoot, upAddr)
+	if kind == "addoutput" {
+		i := strings.Index(text, "  - name: out1")
+		second := strings.Replace(strings.Replace(text[i:], "name: out1", "name: out2", 1), "rootPath: "+queueRoot, "rootPath: "+queueRoot+"2", 1)
+		text += second
+	}
+	return text
 }
 
 type stamp struct{ g, c, i int }
